@@ -486,3 +486,59 @@ def r13_9_instance_caches_are_private(ctx: Ctx) -> RuleResult:
                         else:
                             rr.ok({"class": c.qual, "cache": t.attr})
     return rr
+
+
+# ------------------------------------------------------------------------------------------- R13.10 cache slot keys
+
+
+@rule("C13")
+def r13_10_cache_slot_is_validated_for_its_own_key(ctx: Ctx) -> RuleResult:
+    """Direct-mapped year caches: a slot is found with `_get_cache_index(K)`, and what is in it belongs to year K only if
+    `entry._is_valid_for_year(K)` says so; a fresh entry is stored as `_YearStartCacheEntry(K, ...)`.  All three K must be the same
+    expression within a function, otherwise a value computed for one year is used (or stored) for another - visible only when
+    two years that share a slot are touched in a particular order."""
+    rr = RuleResult("R13.10", "year-cache slots are looked up, validated and refilled with the same key expression (index(K), is_valid_for_year(K), Entry(K, ...))", min_instances=4)
+    M = ctx.M
+    for f in sorted(set(M.func_of_node.values()), key=lambda x: x.qual):
+        if isinstance(f.node, ast.Lambda):
+            continue
+        idx_key: dict[str, str] = {}
+        entry_idx: dict[str, str] = {}
+        nodes = list(own_nodes(f.node))
+        for n in nodes:
+            if isinstance(n, (ast.Assign, ast.AnnAssign)) and n.value is not None:
+                tg = n.targets[0] if isinstance(n, ast.Assign) else n.target
+                if isinstance(tg, ast.Name) and isinstance(n.value, ast.Call) and isinstance(n.value.func, ast.Attribute) and n.value.func.attr == "_get_cache_index" and n.value.args:
+                    idx_key[tg.id] = unparse(n.value.args[0])
+        if not idx_key:
+            continue
+        for n in nodes:
+            if isinstance(n, (ast.Assign, ast.AnnAssign)) and n.value is not None:
+                tg = n.targets[0] if isinstance(n, ast.Assign) else n.target
+                if isinstance(tg, ast.Name) and isinstance(n.value, ast.Subscript) and isinstance(n.value.slice, ast.Name) and n.value.slice.id in idx_key:
+                    entry_idx.setdefault(tg.id, n.value.slice.id)
+        for n in nodes:
+            # validation
+            if isinstance(n, ast.Call) and isinstance(n.func, ast.Attribute) and n.func.attr == "_is_valid_for_year" and n.args and isinstance(n.func.value, ast.Name) and n.func.value.id in entry_idx:
+                rr.inst()
+                k1 = idx_key[entry_idx[n.func.value.id]]
+                k2 = unparse(n.args[0])
+                if k1 == k2:
+                    rr.ok({"function": f.qual, "key": k1})
+                else:
+                    rr.fail(f.qual, f"the slot was looked up for `{k1}` but is validated for `{k2}`: an entry that belongs to `{k2}` is taken for `{k1}`'s", ctx.loc(f, n))
+            # refill
+            if isinstance(n, ast.Assign) and isinstance(n.targets[0], ast.Subscript) and isinstance(n.targets[0].slice, ast.Name) and n.targets[0].slice.id in idx_key:
+                v = n.value
+                if isinstance(v, ast.Name):
+                    d = next((s.value for s in nodes if isinstance(s, (ast.Assign, ast.AnnAssign)) and s.value is not None and isinstance((s.targets[0] if isinstance(s, ast.Assign) else s.target), ast.Name) and (s.targets[0] if isinstance(s, ast.Assign) else s.target).id == v.id and isinstance(s.value, ast.Call) and "CacheEntry" in unparse(s.value.func)), None)
+                    v = d if d is not None else v
+                if isinstance(v, ast.Call) and "CacheEntry" in unparse(v.func) and v.args:
+                    rr.inst()
+                    k1 = idx_key[n.targets[0].slice.id]
+                    k3 = unparse(v.args[0])
+                    if k1 == k3:
+                        rr.ok({"function": f.qual, "stored for": k3})
+                    else:
+                        rr.fail(f.qual, f"the slot of `{k1}` is refilled with an entry made for `{k3}`", ctx.loc(f, n))
+    return rr
